@@ -93,7 +93,8 @@ def handleSCol : List String → Option String
 
 /-! ## protocol: `SMRG rule n {vert incr open overl geom w sw}*n` (top first, the receiver first):
 the real `mergeOverlapping` under opSettle on a subject-only chain → per entry
-`w sw overlapped keep`, then the index of the receiver's new `prev`. Uses the C01 merge model; what
+`w sw overlapped keep open` (open = the flag the entry carries afterwards: 51f64dd clears it on a
+receiver that lies on a closed segment), then the index of the receiver's new `prev`. Uses the C01 merge model; what
 is new here is the Settle decision on the merged (|sw| > 1) entries. -/
 
 def parseSEnts : List String → Option (List C01Merge.Ent)
@@ -115,7 +116,7 @@ def handleSMrg : List String → Option String
       let m := C01Merge.merge s below
       let ents := m.s :: m.below
       let toks := ents.map fun e =>
-        s!"{e.f.w} {e.f.sw} {ind e.overlapped} {ind (keep r e.seg e.f)}"
+        s!"{e.f.w} {e.f.sw} {ind e.overlapped} {ind (keep r e.seg e.f)} {ind e.seg.open_}"
       let pi : Int := match m.prevIdx with
         | some i => (i : Int) + 1
         | none => -1
